@@ -55,6 +55,18 @@ def check(res):
                         res.violation(k, "model of the code (Schema.store_of from GenFactory) and implementation disagree on slot %s of %s: %s vs %s" %
                                       (s, e["key"], want, d.get(s)),
                                       {"factory": e["key"], "arguments": r["args"], "slot": s, "model": want, "impl": d.get(s)}, no_input=True)
+    # every result re-read after all the other calls: what a node exposes does not depend on what was built after it
+    changed, crashed, err = fsweep.reobserve(calls)
+    for kind, fkey, fargs, before, after in changed[:6]:
+        k = "read-back-later:" + fkey
+        if k not in keys and len(keys) < 12:
+            keys.add(k)
+            b, a = fsweep.parse_dump(before), fsweep.parse_dump(after)
+            diff = sorted(x for x in set(b) | set(a) if b.get(x) != a.get(x))[:6]
+            res.violation(k, "the node built by %s(%s) reads differently after later factory calls: %s" %
+                          (fkey, fargs, "; ".join("%s: %s -> %s" % (x, b.get(x), a.get(x)) for x in diff) or kind),
+                          {"factory": fkey, "arguments": fargs, "changed_accessors": diff,
+                           "rerun": "the sweep's call list piped to build/<hash>/asan/fsweep_driver --history, followed by CHECK all"})
     for k in sorted(nodoc)[:5]:
         res.violation("undocumented:" + k, "factory %s has no row in Schema.doc_table" % k, {"factory": k}, no_input=True)
     if not all(status.values()) and not any(k.startswith(("read-back", "crash")) for k in keys):
